@@ -6,7 +6,7 @@
 (* the real code has to emit for it and the projected state after it.  What varies: what happens to each  *)
 (* interface at each (re)start, which requests are made and where.  x06.py derives the script (inputs)    *)
 (* from a behaviour, runs it on the real Server under the same schedule and compares events and state.    *)
-EXTENDS ServerRun, Sequences, Json
+EXTENDS ServerRun, Json
 CONSTANTS MaxSteps
 VARIABLES hist, lastObs
 
@@ -32,7 +32,7 @@ GMain ==
                                         [ev |-> "start"], [ev |-> "ready"] >>)
   \/ M_Dict /\ Log("M_Dict", "main", 0, <<>>)
   \/ M_Spawn /\ Log("M_Spawn", "main", 0, <<>>)
-  \/ M_Wait /\ Log("M_Wait", "main", 0, <<>>)
+  \/ M_WaitAll /\ Log("M_Wait", "main", 0, <<>>)
   \/ M_Report /\ Log("M_Report", "main", 0, ReportEvs)
   \/ M_NoIf /\ Log("M_NoIf", "main", 0, <<[ev |-> "noiface"]>> \o (IF FixNoIf THEN <<[ev |-> "mdown"], [ev |-> "mdown"]>> ELSE <<>>)
                                         \o <<[ev |-> "ret"]>>)
@@ -45,9 +45,16 @@ GMain ==
   \/ M_HookTest /\ Log("M_HookTest", "main", 0, IF rflag THEN <<[ev |-> "hook"]>> ELSE <<>>)
   \/ M_LogDown /\ Log("M_LogDown", "main", 0, <<[ev |-> "down"], [ev |-> "ret"]>>)
 
+(* the time-out of the wait elapses only when nobody else can run (virtual time) *)
+GTimeout == M_WaitTimeout /\ Log("M_WaitTimeout", "main", 0, <<>>)
+
+(* an interface whose constructor takes 15 s: when nobody else can run and the time-out of the wait has elapsed *)
+GLate(i) == I_Construct(i) /\ kind[i] = "late" /\ Log("I_Construct", "if", i, Ei("bind", i))
+
 GIface(i) ==
-  \/ I_Construct(i) /\ Log("I_Construct", "if", i, <<[ev |-> "if_begin", i |-> i],
-                                                     [ev |-> IF kind[i] = "fail" THEN "bindfail" ELSE "bind", i |-> i]>>)
+  \/ I_Begin(i) /\ Log("I_Begin", "if", i, Ei("if_begin", i))
+  \/ I_Construct(i) /\ kind[i] # "late"
+       /\ Log("I_Construct", "if", i, <<[ev |-> IF kind[i] = "fail" THEN "bindfail" ELSE "bind", i |-> i]>>)
   \/ I_Register(i) /\ Log("I_Register", "if", i, <<>>)
   \/ I_Trigger(i) /\ Log("I_Trigger", "if", i, <<>>)
   \/ I_ServeBegin(i) /\ Log("I_ServeBegin", "if", i, Ei("serve_b", i))
@@ -75,17 +82,24 @@ GReq(r) ==
 GBegin(r) == R_Begin(r) /\ lastObs /\ Log("R_Begin", r, 0, <<[ev |-> "req_b", kind |-> RKind[r]]>>)
 
 (* canonical schedule *)
+MainFast == M_LoopTest \/ M_Clear \/ M_LoopHead \/ M_Cfg \/ M_Dict \/ M_Spawn \/ M_WaitAll \/ M_Report \/ M_NoIf
+            \/ M_Prop \/ M_PropDisc \/ M_Disc \/ M_Join \/ M_ShutMods \/ M_HookTest \/ M_LogDown
 ReqRunning == {r \in Req : rpc[r] \notin {"idle", "done"} /\ ENABLED ReqStep(r)}
-HelperIf == {i \in Ifs : ENABLED Iface(i)}
+IfaceFast(i) == I_Begin(i) \/ (I_Construct(i) /\ kind[i] # "late") \/ I_Register(i) \/ I_Trigger(i) \/ I_ServeBegin(i)
+                \/ I_ServeEnd(i) \/ I_Crash(i) \/ I_Close(i) \/ I_Finish(i) \/ I_End(i)
+HelperIf == {i \in Ifs : ENABLED IfaceFast(i)}
+LateIf == {i \in Ifs : kind[i] = "late" /\ ENABLED I_Construct(i)}
 HelperDisc == {g \in Gens : ENABLED (D_Run(g) \/ D_End(g))}
 Lowest(S) == CHOOSE x \in S : \A y \in S : x <= y
 
 GNext ==
   IF ReqRunning # {} THEN \E r \in ReqRunning : GReq(r)
   ELSE \/ \E r \in Req : GBegin(r)
-       \/ IF ENABLED Main THEN GMain
+       \/ IF ENABLED MainFast THEN GMain
           ELSE IF HelperIf # {} THEN GIface(Lowest(HelperIf))
-          ELSE HelperDisc # {} /\ GDisc(Lowest(HelperDisc))
+          ELSE IF HelperDisc # {} THEN GDisc(Lowest(HelperDisc))
+          ELSE IF ENABLED M_WaitTimeout THEN GTimeout
+          ELSE LateIf # {} /\ GLate(Lowest(LateIf))
 
 GInit == Init /\ hist = <<>> /\ lastObs = TRUE
 GSpec == GInit /\ [][GNext]_gvars
